@@ -3,13 +3,18 @@
 CHECKS = {
     "C14": dict(
         explanation="bounded symbolic execution of the real codec functions from go/ssa; inputs are symbolic bytes",
-        assumptions=["crypto/md5.Sum is an uninterpreted function of its input bytes"],
+        assumptions=["crypto/md5.Sum is an uninterpreted function of its input bytes", "fmt.Sprintf is modelled by the executor (%d, %x, %s); strconv, encoding/hex and strings are executed from their own SSA"],
         harnesses=[
             dict(pkg="protocol", name="C14_rt_lock", bound="all 2^512 64-byte buffers", flags=["-witness", "1"], reach=["end"]),
             dict(pkg="protocol", name="C14_rt_all", bound="all 2^512 64-byte buffers for each of 18 command/result types", flags=["-witness", "1"], reach=["end", "decode-rejected"]),
             dict(pkg="protocol", name="C14_rt_call", bound="CALL method names of 0..38 and error types of 0..37 symbolic non-NUL bytes, all header field values", flags=["-witness", "5"], reach=["end"]),
             dict(pkg="protocol", name="C14_chunks_req", bound="BuildRequest of 1..2 arguments of 0..3 symbolic bytes, delivered in up to 3 reads cut at every pair of offsets", flags=["-witness", "100"], reach=["end"]),
             dict(pkg="protocol", name="C14_chunks_resp", bound="BuildResponse in status / error / bulk (0..3 bytes) / array (2 x 0..2 bytes) form, up to 3 reads cut at every pair of offsets", flags=["-witness", "100"], reach=["end"]),
+            dict(pkg="server", name="C14_inline_decode", bound="all LOCK/UNLOCK frames (every field value; no value frame) through the hand-inlined decoder in BinaryServerProtocol.ProcessParse against protocol.LockCommand.Decode, and the UNKNOWN_DB reply against LockResultCommand.Encode", flags=["-witness", "1"], reach=["end"]),
+            dict(pkg="server", name="C14_inline_encode", bound="all command field values, result codes, counts, with and without an 8-byte value frame, through the hand-inlined encoder in BinaryServerProtocol.ProcessLockResultCommand against NewLockResultCommand(...).Encode and back through LockResultCommand.Decode", flags=["-witness", "1"], reach=["end"]),
+            dict(pkg="protocol", name="C14_idnorm", bound="key/id strings of every length 0..64, all byte values, through ConvertArgId2LockId and ConvertString2LockKey against the documented rule", flags=["-witness", "1"], reach=["end"]),
+            dict(pkg="protocol", name="C14_textlock", bound="text LOCK/UNLOCK with key of 1..16 bytes and the options LOCK_ID (16 bytes), FLAG (3 digits), TIMEOUT, EXPRIED (10 digits each), COUNT (5 digits), RCOUNT (3 digits): all present, none, or each alone; all digit values", flags=["-witness", "4", "-solver", "cvc5-int"], reach=["end"]),
+            dict(pkg="protocol", name="C14_resulttext", bound="the 13 defined result codes, all lock ids, LCOUNT/LRCOUNT or COUNT/RCOUNT symbolic (the other pair fixed), rendered by WriteTextLockAndUnLockCommandResult and parsed back by TextParser.ParseResponse", flags=["-witness", "10"], reach=["end", "rendered"]),
         ],
     ),
 }
@@ -25,10 +30,15 @@ CHECKS["C01"] = dict(
 )
 
 CHECKS["C20"] = dict(
-    explanation="bounded symbolic execution of the real segmented-deque code against a Go-slice model; the executor forks over every opcode at every step",
-    assumptions=[],
+    explanation="bounded symbolic execution of the real segmented-deque and ring-queue code against a Go-slice model; the executor forks over every opcode at every step",
+    assumptions=["Shrink() has no caller in the repository (dead code) and is not driven", "Rellac() is invoked on drained queues only, as every caller does"],
     harnesses=[
         dict(pkg="server", name="C20_lockqueue", bound="all programs of 6 operations over 8 opcodes; constructor parameters base 1..2, nodes 1..3, size 1..2", flags=["-witness", "100000"], reach=["end"]),
+        dict(pkg="server", name="C20_deques", bound="LockQueue, LockCommandQueue and LockManagerQueue behind one adaptor: all programs of 5 operations over 10 opcodes (Push, Pop, PopRight, PushLeft, Head+Tail, Resize, Restructuring, Reset, Rellac on a drained queue, iteration); constructor parameters (1,3,2) and (2,2,1)", flags=["-witness", "50000"], reach=["end"]),
+        dict(pkg="server", name="C20_ring", bound="LockManagerRingQueue and LockManagerPriorityRingQueue (capacity 1..2): all programs of 5 operations (Push with priority 0..2, Pop, Head+MaxPriority+iteration) against a FIFO / stable priority queue", flags=["-witness", "20000"], reach=["end"]),
+        dict(pkg="server", name="C20_lockqueue7", bound="as C20_lockqueue with 7 operations", flags=["-witness", "1000000"], reach=["end"], thorough_only=True),
+        dict(pkg="server", name="C20_deques7", bound="as C20_deques with 7 operations and constructor parameters (1,1,1), (1,3,2), (2,2,1), (2,3,2)", flags=["-witness", "1000000"], reach=["end"], thorough_only=True),
+        dict(pkg="server", name="C20_ring8", bound="as C20_ring with 8 operations", flags=["-witness", "1000000"], reach=["end"], thorough_only=True),
     ],
 )
 
@@ -67,6 +77,13 @@ CHECKS["C13"] = dict(
         dict(pkg="server", name="C13_lockdata_pop", bound="as C13_lockdata with the POP operation", flags=["-witness", "200"], reach=["end", "first-frame-done"], allow=["unsupported"]),
         dict(pkg="protocol", name="C13_textchunks", bound="text request of 1..2 arguments of 0..3 symbolic bytes in every 3-read chunking (TextParser.ParseRequest as TextServerProtocol.Process drives it)", flags=["-witness", "200"], reach=["end"]),
         dict(pkg="protocol", name="C13_textbytes", bound="arbitrary byte streams of 1..7 bytes (malformed input) in every 3-read chunking", flags=["-witness", "2000"], reach=["end"]),
+        dict(pkg="server", name="C13_textcmd", bound="one text command out of the 27 registered key-value/keyspace/session commands (and an unknown one) with 0..3 arguments, each argument one of: the key, a value, 2 symbolic ASCII bytes (so every two-character option word, number or garbage), EX, NX, MATCH; real TextServerProtocol handler + converter + LockDB on a fresh server", flags=["-witness", "2000"], reach=["end"], allow=["blocked"]),
+        dict(pkg="server", name="C13_textcmd2", bound="a first command creating a string / number / plain hold (5 shapes), then any command as in C13_textcmd with 0..2 arguments on the same or a second connection", flags=["-witness", "2000"], reach=["end", "first-done"], allow=["blocked"]),
+        dict(pkg="server", name="C13_textlock", bound="LOCK / UNLOCK / PUSH with key and 0..4 further arguments: option word from all 15 recognised (and an unknown one) alternating with a value out of 0, 1..2 symbolic ASCII bytes, UNLOCK, v", flags=["-witness", "2000"], reach=["end"], allow=["blocked"]),
+        dict(pkg="server", name="C13_textcmd4", bound="as C13_textcmd with 0..4 arguments and the full alphabet (also 1 symbolic byte, PX, COUNT)", flags=["-witness", "20000"], reach=["end"], allow=["blocked"], thorough_only=True),
+        dict(pkg="server", name="C13_textcmd2x", bound="as C13_textcmd2 with 0..3 arguments and the full alphabet", flags=["-witness", "20000"], reach=["end", "first-done"], allow=["blocked"], thorough_only=True),
+        dict(pkg="server", name="C13_binframe_other", bound="any 64-byte frame whose type is not LOCK/UNLOCK (INIT, STATE, ADMIN + 8 bytes of text input, PING, QUIT, CALL with content-length classes, WILL_LOCK/WILL_UNLOCK, LEADER, SUBSCRIBE, unknown types, wrong magic/version), followed by 8 arbitrary bytes and end of input; time values and database ids in classes", flags=["-witness", "500"], reach=["end"]),
+        dict(pkg="server", name="C13_binframe", bound="as C13_binframe_other with LOCK and UNLOCK frames too: every flag bit symbolic, on a fresh server", flags=["-witness", "20000"], reach=["end"], thorough_only=True),
         dict(pkg="protocol", name="C13_textbytes9", bound="as C13_textbytes with 1..9 bytes", flags=["-witness", "20000"], reach=["end"], thorough_only=True),
         dict(pkg="server", name="C13_lockdata8", bound="as C13_lockdata with frames of 2..8 bytes", flags=["-witness", "20000"], reach=["end"], allow=["unsupported"], thorough_only=True),
     ],
